@@ -23,6 +23,7 @@ type Cell struct {
 	Idx    int
 	Tag    string // allocation site (debug)
 	Owner  int    // goroutine that allocated (race detection)
+	race   *raceInfo
 }
 
 type Ptr struct {
@@ -85,8 +86,10 @@ type ChanObj struct {
 	Closed bool
 	ET     types.Type
 	// rendezvous state for unbuffered channels
-	sendq []*chanWaiter
-	recvq []*chanWaiter
+	sendq   []*chanWaiter
+	recvq   []*chanWaiter
+	bufVC   [][]int
+	closeVC []int
 }
 
 type ChanV struct{ C *ChanObj }
